@@ -6,6 +6,8 @@ From Coq Require Import List PeanoNat.
 From GB Require Import Model Spec SpecLaws Inv Conc GI Lin LinDef CB_Blocks CB_Count CB_Final.
 From GB Require Import TB_Trace TBs_Def TBs_Sanity TBs_Proof.
 From GB Require Import TG_Finite TG_Stuck TG_Final.
+From GB Require Import Order HistoryProof ConcProps Frame LockInv AUD_Proof.
+From Coq Require Import ZArith.
 Import ListNotations.
 
 (* ====================== C05: the callback of Update runs exactly once, on the current value ====================== *)
@@ -66,8 +68,22 @@ Theorem C05_callbacks_are_completed_updates : forall sched t th,
 Proof. exact (C05_count K V ltb HS order Heven H4 progs Hnd sched0). Qed.
 End C05.
 
+(* exactly-once needs nothing about the key order or the tree's order: it holds for EVERY order (2, 3, ... as well)
+   and every comparison function, whatever the other threads do, as long as the execution goes on *)
+Theorem C05_callback_exactly_once_every_order :
+  forall (K V : Type) (ltb : K -> K -> bool) (order : nat) (progs : list (tid * list (cop K V))) sched0 sched t th th2 k f rest,
+  let s := fst (exec ltb order (init_st progs) sched0) in
+  get_thread t (ths s) = Some th -> prog th = CUpdate k f :: rest ->
+  get_thread t (ths (fst (exec ltb order s sched))) = Some th2 -> prog th2 = rest ->
+  cb_steps K V ltb order t s sched = 1.
+Proof.
+  intros K V ltb order progs sched0 sched t th th2 k f rest s.
+  exact (update_once K V ltb order sched s t th th2 k f rest (call_ok_reachable K V ltb order progs sched0)).
+Qed.
+
 Print Assumptions C05_callback_sees_current_value_and_stores_result.
 Print Assumptions C05_callback_exactly_once.
+Print Assumptions C05_callback_exactly_once_every_order.
 Print Assumptions C05_callback_not_before_the_store.
 Print Assumptions C05_callbacks_are_completed_updates.
 
@@ -129,3 +145,60 @@ Proof. exact no_infinite_execution. Qed.
 Print Assumptions C06_every_execution_is_finite.
 Print Assumptions C06_an_execution_stops_only_when_all_calls_returned.
 Print Assumptions C06_no_infinite_execution.
+
+(* ====================== closing lemmas asked for by an independent review of the statements ====================== *)
+
+(* C10, last clause, read as DIRECT blocking: a thread whose awaited lock is unavailable because of a resting cursor,
+   a hopping cursor or a thread parked in an Update callback awaits exactly that thread's one leaf (it holds nothing
+   else, in particular not the tree mutex).  Transitive blocking through a Delete that needs the leaf is a different
+   matter: DESIGN.md section 6, C10. *)
+Theorem C10_cursor_blocks_only_its_leaf :
+  forall (K V : Type) (ltb : K -> K -> bool), SWO ltb -> forall order, Nat.even order = true -> 4 <= order ->
+  forall (progs : list (tid * list (cop K V))) (sched : list tid) (t : tid) (th : thread K V)
+         (u : tid) (thu : thread K V) (l : id) (tg : option (option id)),
+  NoDup (map fst progs) ->
+  let s := fst (exec ltb order (init_st progs) sched) in
+  get_thread t (ths s) = Some th ->
+  (exists i n acc, tpc th = CurRest l i n acc) \/
+  (exists nxt n acc, tpc th = CurWantNext l nxt n acc) \/
+  (exists o m i, tpc th = UpdCallback o l m i) ->
+  u <> t -> get_thread u (ths s) = Some thu -> target s (tpc thu) = Ok tg ->
+  (exists x, tg = Some (Some x) /\ holder x (lk s) = Some t) \/ (tg = Some None /\ tm s = Some t) ->
+  tg = Some (Some l).
+Proof. exact cursor_blocks_only_its_leaf. Qed.
+Print Assumptions C10_cursor_blocks_only_its_leaf.
+
+(* C08 as worded: whenever no operation is in flight the sequential shape invariant holds in full (ordering with
+   separator bounds, equal depth, capacity, minimum occupancy with no exemption) and the leaf chain is the in-order
+   succession of the leaves *)
+Theorem C08_quiescent_states_satisfy_the_shape_invariant :
+  forall (K V : Type) (ltb : K -> K -> bool), SWO ltb -> forall order, Nat.even order = true -> 4 <= order ->
+  forall (progs : list (tid * list (cop K V))) (sched : list tid), NoDup (map fst progs) ->
+  let s := fst (exec ltb order (init_st progs) sched) in
+  (forall t th, get_thread t (ths s) = Some th -> tpc th = Idle) ->
+  Inv ltb order (erase_ids (tr s)) /\ chain_ok (leaf_links (tr s)).
+Proof. exact quiescent_Inv. Qed.
+Print Assumptions C08_quiescent_states_satisfy_the_shape_invariant.
+
+(* C07_writes_only_under_lock_exact with its premise [lossless] discharged for reachable states *)
+Theorem C07_writes_only_under_lock_exact_closed :
+  forall (K V : Type) (ltb : K -> K -> bool), SWO ltb -> forall order, Nat.even order = true -> 4 <= order ->
+  forall (progs : list (tid * list (cop K V))) (sched : list tid) me s' acq ev x,
+  NoDup (map fst progs) ->
+  let s := reach ltb order progs sched in
+  cstep ltb order s me = Stepped s' acq ev ->
+  In x (ids (tr s)) -> ~ In x (held_by me (lk s)) -> acq <> Some (Some x) ->
+  node_view x (tr s') = node_view x (tr s).
+Proof. exact writes_only_under_lock_exact_closed. Qed.
+Print Assumptions C07_writes_only_under_lock_exact_closed.
+
+(* C12: every order the constructors accept is even and >= 2 (>= 4 unless it is 2), hence satisfies the premise of
+   C01_refines_map: every history from the empty tree returns what the ideal map returns (order 2: without Delete) *)
+Theorem C12_accepted_orders_are_usable :
+  forall (K V : Type) (ltb : K -> K -> bool), SWO ltb ->
+  forall (o : Z) (ops : list (op K V)), check_order o = true -> (o <> 2%Z \/ no_delete ops) ->
+  exists t : tree K V,
+    run_tree ltb (Z.to_nat o) (Leaf []) ops = Ok (t, snd (run_spec ltb [] ops)) /\
+    entries t = fst (run_spec ltb [] ops) /\ Inv ltb (Z.to_nat o) t.
+Proof. exact accepted_orders_are_usable. Qed.
+Print Assumptions C12_accepted_orders_are_usable.
